@@ -96,6 +96,10 @@ void srv_handler(coap_resource_t *, coap_session_t *session, const coap_pdu_t *r
     if (async) return;  // empty ACK now, handler is called again when the delay expired
   }
   // (the async entry of a delayed request is removed by libcoap when this handler returns)
+  {
+    coap_bin_const_t tk = coap_pdu_get_token(request);
+    G->w->callback("SRV-RESPONSE tok=" + hex(std::vector<uint8_t>(tk.s, tk.s + tk.length), 8));
+  }
   coap_pdu_set_code(response, COAP_RESPONSE_CODE_CONTENT);
   coap_add_data(response, 5, (const uint8_t *)"hello");
 }
@@ -332,19 +336,44 @@ int verif_case(const uint8_t *tape, size_t tlen, Info *info) {
   }
   if (verdict == HELD) {
     // every CON response delivered to the client is acknowledged (ACK, or RST after a FAIL verdict), duplicates included
-    std::map<uint16_t, unsigned> deliveries, answers;
+    std::map<uint16_t, unsigned> deliveries, answers, resets;
     std::map<uint16_t, std::vector<uint8_t>> tok_of;
     for (auto &e : w.trace) {
       ref::Msg m;
       if (!simh::parse(e.data, &m)) continue;
       if (e.kind == EV_DELIVER && e.dst == client_local && m.type == 0 && m.code >= 64) { deliveries[m.mid]++; tok_of[m.mid] = m.token; }
-      if (e.kind == EV_SEND && e.from_lib && e.src == client_local && m.code == 0 && (m.type == 2 || m.type == 3)) answers[m.mid]++;
+      if (e.kind == EV_SEND && e.from_lib && e.src == client_local && m.code == 0 && (m.type == 2 || m.type == 3)) { answers[m.mid]++; if (m.type == 3) resets[m.mid]++; }
     }
     for (auto &kv : deliveries) {
       if (answers[kv.first] < kv.second) {
         info->fail("CON response mid %u was delivered %u time(s) but answered by ACK/RST %u time(s)", kv.first, kv.second, answers[kv.first]);
         verdict = VIOLATION;
         break;
+      }
+    }
+    // "acknowledged": a CON response that the application accepted (verdict OK) is never answered with a Reset, not the first time and
+    // not when a duplicate of it arrives later (whatever other responses were handled in between)
+    for (auto &kv : deliveries) {
+      if (verdict != HELD || !resets.count(kv.first)) continue;
+      for (auto &r : cs.reqs) if (r.submitted && r.token == tok_of[kv.first] && !r.verdict_fail) {
+        info->fail("CON response mid %u (tok=%s, handler verdict OK) was answered with a Reset %u time(s)", kv.first, hex(r.token, 8).c_str(), resets[kv.first]);
+        verdict = VIOLATION;
+        break;
+      }
+    }
+    // (B) a response that the server's handler produced is put on the wire at the latest when the network is quiet (held back by NSTART
+    // behind an unacknowledged earlier CON response only until that one is acknowledged or given up): otherwise the request ends in neither
+    if (verdict == HELD && cs.modeB && quiet) {
+      for (auto &c : w.trace) {
+        if (c.kind != EV_CALLBACK || c.note.compare(0, 17, "SRV-RESPONSE tok=") != 0) continue;
+        std::string tk = c.note.substr(17);
+        bool sent = false;
+        for (auto &e : w.trace) {
+          ref::Msg m;
+          if (e.kind == EV_SEND && e.from_lib && e.src == srv && e.t >= c.t && simh::parse(e.data, &m) && m.code >= 64 && hex(m.token, 8) == tk) { sent = true; break; }
+        }
+        if (!sent) { info->fail("server handler produced the response for tok=%s at %llu but it was never transmitted", tk.c_str(), (unsigned long long)c.t); verdict = VIOLATION; break; }
+        info->label("B:server-response-transmitted");
       }
     }
     // FAIL verdict => RST for the first delivery
